@@ -110,14 +110,22 @@ Definition reads_back_exactly (v : val) : Prop :=
   | VNone | VBool _ => True
   | VStr s => s <> "true" /\ s <> "false"
   | VOther _ _ => False
+  | VNum _ _ => False
   end.
 
 Lemma decode_encode_exact : forall v, decode (encode v) = v <-> reads_back_exactly v.
 Proof.
-  destruct v as [|[|]|s|s t]; cbn; try tauto.
+  destruct v as [|[|]|s|s t|z s]; cbn; try tauto.
   - destruct (String.eqb_spec s "true"); [subst; split; [discriminate|tauto]|].
     destruct (String.eqb_spec s "false"); [subst; split; [discriminate|tauto]|]. tauto.
   - split; [|tauto]. destruct (String.eqb s "true"); [discriminate|]. destruct (String.eqb s "false"); discriminate.
+  - split; [|tauto]. destruct (String.eqb s "true"); [discriminate|]. destruct (String.eqb s "false"); discriminate.
+Qed.
+
+(* an int comes back as its str() *)
+Lemma decode_encode_num : forall z s, s <> "true" -> s <> "false" -> decode (encode (VNum z s)) = VStr s.
+Proof.
+  intros. cbn. destruct (String.eqb_spec s "true"); [contradiction|]. destruct (String.eqb_spec s "false"); [contradiction|reflexivity].
 Qed.
 
 Lemma decode_encode_bool : forall b, decode (encode (VBool b)) = VBool b.
